@@ -488,11 +488,12 @@ func c07Recheck(pkgPath string, srcs []vgSrcFile, imp types.Importer, goVersion 
 // one generated package
 
 type c07Case struct {
-	Spec   *vgSpec   `json:"spec,omitempty"`
-	GI     *vgGISpec `json:"gi,omitempty"`
-	Corpus string    `json:"corpus,omitempty"`
-	PkgID  string    `json:"pkg,omitempty"`
-	Source string    `json:"source,omitempty"`
+	Spec   *vgSpec      `json:"spec,omitempty"`
+	GI     *vgGISpec    `json:"gi,omitempty"`
+	Local  *vgLocalSpec `json:"local,omitempty"`
+	Corpus string       `json:"corpus,omitempty"`
+	PkgID  string       `json:"pkg,omitempty"`
+	Source string       `json:"source,omitempty"`
 }
 
 type c07Stats struct {
@@ -541,8 +542,17 @@ func c07RunGI(res *vx.Result, st *c07Stats, g *vgGISpec) {
 	c07RunSource(res, st, g.Key(), g.Source(), nil, g)
 }
 
+// c07RunLocal judges one package of the local-declaration family.
+func c07RunLocal(res *vx.Result, st *c07Stats, l *vgLocalSpec) {
+	c07RunSource(res, st, l.Key(), l.Source(), nil, nil, l)
+}
+
 // c07RunSource applies both oracles to one generated single-file package; exactly one of s, gi is set.
-func c07RunSource(res *vx.Result, st *c07Stats, key, src string, s *vgSpec, gi *vgGISpec) {
+func c07RunSource(res *vx.Result, st *c07Stats, key, src string, s *vgSpec, gi *vgGISpec, lo ...*vgLocalSpec) {
+	var local *vgLocalSpec
+	if len(lo) == 1 {
+		local = lo[0]
+	}
 	c, errs := vgCheck("p", []vgSrcFile{{"p.go", src}}, nil)
 	if len(errs) > 0 {
 		if st.typeErr.Add(1) <= 5 {
@@ -559,7 +569,7 @@ func c07RunSource(res *vx.Result, st *c07Stats, key, src string, s *vgSpec, gi *
 			panic(err)
 		}
 	}); msg != "" {
-		res.Violate("panic|"+key, "unused.Analyzer panicked/failed on a well-typed package: "+msg+"\n"+src, c07Case{Spec: s, GI: gi, Source: src})
+		res.Violate("panic|"+key, "unused.Analyzer panicked/failed on a well-typed package: "+msg+"\n"+src, c07Case{Spec: s, GI: gi, Local: local, Source: src})
 		return
 	}
 	res.Eval(1)
@@ -580,7 +590,7 @@ func c07RunSource(res *vx.Result, st *c07Stats, key, src string, s *vgSpec, gi *
 			res.Unassert("zero-reference alias " + m.Name + " not reported in " + key + " (an alias is not a named type in the statement's wording)")
 			continue
 		}
-		res.Violate("zeroref|"+m.Kind+"_"+m.Name+"|"+key, msg, c07Case{Spec: s, GI: gi, Source: src})
+		res.Violate("zeroref|"+m.Kind+"_"+m.Name+"|"+key, msg, c07Case{Spec: s, GI: gi, Local: local, Source: src})
 	}
 	// supplement (DESIGN C07, rule 10.1): a generated iota group is reported as a whole or not at all;
 	// with the carried-over expression list a partial deletion would still type-check.
@@ -599,7 +609,7 @@ func c07RunSource(res *vx.Result, st *c07Stats, key, src string, s *vgSpec, gi *
 		}
 		if ra != rb {
 			res.Violate("constgroup|"+key, fmt.Sprintf("constant group (%s, %s) is reported in part only (%s reported=%v, %s reported=%v)\n%s",
-				s.name(i), s.grpB(i), s.name(i), ra, s.grpB(i), rb, src), c07Case{Spec: s, GI: gi, Source: src})
+				s.name(i), s.grpB(i), s.name(i), ra, s.grpB(i), rb, src), c07Case{Spec: s, GI: gi, Local: local, Source: src})
 		}
 	}
 	// oracle 1
@@ -616,7 +626,7 @@ func c07RunSource(res *vx.Result, st *c07Stats, key, src string, s *vgSpec, gi *
 	if errs := c07Recheck("p", del.Sources, nil, "go1.26"); len(errs) > 0 {
 		msg := fmt.Sprintf("after removing every object U1000 reports (%s) the package no longer type-checks: %s\n--- package ---\n%s\n--- after deletion ---\n%s",
 			strings.Join(vgUnusedSet(ur), ", "), strings.Join(errs, "; "), src, del.Sources[0].Src)
-		res.Violate("deletion|"+key, msg, c07Case{Spec: s, GI: gi, Source: src})
+		res.Violate("deletion|"+key, msg, c07Case{Spec: s, GI: gi, Local: local, Source: src})
 	}
 }
 
@@ -834,6 +844,8 @@ func TestVerifC07(t *testing.T) {
 		}
 		if cs.Spec != nil {
 			c07RunSpec(res, st, cs.Spec)
+		} else if cs.Local != nil {
+			c07RunLocal(res, st, cs.Local)
 		} else if cs.GI != nil {
 			for round := 0; round < 16; round++ { // the analyzer walks interfaces in map order
 				c07RunGI(res, st, cs.GI)
@@ -849,7 +861,7 @@ func TestVerifC07(t *testing.T) {
 	res.SetBudget(vx.Budget(100*time.Second, 17*time.Minute))
 	cpu0 := vgCPU()
 	b := c07Bounds()
-	var sampleN, giDone atomic.Int64
+	var sampleN, giDone, localDone atomic.Int64
 	part := os.Getenv("VERIF_C07_PART") // development aid: "gen" or "corpora"; empty = everything
 	if part == "corpora" {
 		b.MaxN = 1
@@ -889,6 +901,30 @@ func TestVerifC07(t *testing.T) {
 			}()
 		}
 		wg.Wait()
+		// third family: declarations local to a used function
+		locals := vgLocalEnumerate(2)
+		next.Store(0)
+		for w := 0; w < runtime.GOMAXPROCS(0); w++ {
+			wg.Add(1)
+			go func() {
+				defer wg.Done()
+				for {
+					i := int(next.Add(1)) - 1
+					if i >= len(locals) {
+						return
+					}
+					if res.Expired() {
+						res.NotExhaustive("time budget reached in the local-declaration family")
+						return
+					}
+					c07RunLocal(res, st, locals[i])
+					localDone.Add(1)
+				}
+			}()
+		}
+		wg.Wait()
+		lm := locals[len(locals)*2/3]
+		res.Sample(map[string]any{"key": lm.Key(), "source": lm.Source()})
 		mid := gis[len(gis)*3/4]
 		res.Sample(map[string]any{"key": mid.Key(), "source": mid.Source()})
 	}
@@ -899,6 +935,7 @@ func TestVerifC07(t *testing.T) {
 		}
 	})
 	res.Count("generic_interface_family_packages", giDone.Load())
+	res.Count("local_declaration_family_packages", localDone.Load())
 	res.Count("generated_packages", specs)
 	res.Count("generated_edge_sets_inadmissible", inadm)
 	res.Count("generated_edge_sets_noncanonical(renaming)", noncanon)
